@@ -93,6 +93,8 @@ int main(int argc, char **argv)
 			r = ops_table(args, na);
 		if (r < 0) r = ops_codec(args, na);
 		if (r < 0 && !strncmp(args[0], "m.", 2)) r = ops_merger(args, na);
+		if (r < 0 && !strncmp(args[0], "fs.", 3)) r = ops_fileset(args, na);
+		if (r < 0 && (!strncmp(args[0], "s.", 2) || !strncmp(args[0], "sys.", 4))) r = ops_sorter(args, na);
 		if (r < 0) puts("bad-op");
 		fflush(stdout);
 	}
